@@ -644,7 +644,10 @@ impl Monitors {
         self.check_requeue_watch(&core, step, out);
 
         // ---- C14: max-fails
-        self.check_max_fails(&journal_this_step, &prev_jobs, &jobs, prev_core.as_ref(), &srv_cancel_sent, step, out);
+        // tasks a worker gave back (reject) in a message of this step: if the same message also
+        // carries the failure that crosses the limit, they are not held any more when the job is aborted
+        let rejected_now: BTreeSet<Tid> = srv_got_updates.iter().filter_map(|u| if let UpdateLite::Reject(t, _) = u { Some(*t) } else { None }).collect();
+        self.check_max_fails(&journal_this_step, &prev_jobs, &jobs, prev_core.as_ref(), &srv_cancel_sent, &rejected_now, step, out);
 
         if std::env::var("HQV_DUMP_STEP").ok().and_then(|s| s.parse::<u32>().ok()) == Some(step) {
             eprintln!("--- step {step}: need_scheduling={} in_flight={} open_execs={:?}", sim.inc.server.need_scheduling(), sim.messages_in_flight(), sim.open_execs());
@@ -1816,6 +1819,7 @@ impl Monitors {
         jobs: &[JobLite],
         prev_core: Option<&CoreSnapshot>,
         srv_cancel_sent: &BTreeSet<Tid>,
+        rejected_now: &BTreeSet<Tid>,
         step: u32,
         out: &mut Vec<Violation>,
     ) {
@@ -1922,7 +1926,10 @@ impl Monitors {
                             if journal.iter().any(|e| matches!(e, Ev::WorkerLost(..))) {
                                 self.count("maxfails.crossing_by_worker_loss.held_task_checked", 1);
                             }
-                            if !srv_cancel_sent.contains(&t) && !holder_lost {
+                            if rejected_now.contains(&t) {
+                                self.count("maxfails.held_task_given_back_in_the_same_message", 1);
+                            }
+                            if !srv_cancel_sent.contains(&t) && !holder_lost && !rejected_now.contains(&t) {
                                 viol(
                                     out,
                                     step,
